@@ -389,6 +389,12 @@ def c07(tier):
                   'server grammar frames, transport cut after a symbolic number of bytes of the whole stream (incl. inside the handshake)',
                   server=dict(kind='grammar', K=2 if q else 3, alphabet=['text', 'ping', 'close', 'frag']), cut_anywhere=True, end='sym',
                   ends=['eof', 'error']),
+        life_spec('tls-transport-ends', tags,
+                  'wss:// connection (TLS socket of the stub ssl module): server grammar frames, the transport ends after a symbolic number of bytes by EOF, '
+                  'a socket error or a TLS-LEVEL error reported by the ssl module (ssl.SSLError, e.g. TCP dropped without close_notify), which then '
+                  'persists on every later read: one terminal event, iteration ends',
+                  server=dict(kind='grammar', K=2, alphabet=['text', 'ping', 'close']), url='wss://example.com/', cut_anywhere=True, end='sym',
+                  ends=['eof', 'error', 'tls-error'], max_waits=40),
     ]
     return run_property('C07', tier, specs, 'model_checking', 'well-formed finite event sequence', ENV_ASSUMPTIONS + [
         'termination is a bounded-step obligation: exceeding the selector-wait budget after the transport ended is a violation',
@@ -433,6 +439,11 @@ def c09(tier):
                            connect=dict(poll=1.0, close_timeout=3.0),
                            app=dict(actions=['close', 'close_default'], max_actions=1, only_events=['connected', 'ready', 'text']),
                            fault=dict(ops=['sendall'], kinds=['oserror', 'exception'], max=1, skip={'sendall': 1}), max_waits=30))
+    specs.append(life_spec('cut-at-every-offset-wss', tags,
+                           'wss:// connection: EOF, socket error or a TLS-level error (ssl.SSLError from recv, persisting) after every byte offset of '
+                           'handshake + frames (offset is a solver variable)',
+                           server=dict(kind='fixed', hex='810161' + '8902' + '7071' + '02026263' + '80026465'), url='wss://example.com/',
+                           cut_anywhere=True, end='sym', ends=['eof', 'error', 'tls-error'], max_waits=40))
     specs.append(life_spec('keepalive-write-fault', tags,
                            'ping_rate armed on a virtual clock, silent server: one symbolic fault on any write after the upgrade request - the automatic Ping, '
                            'a Pong, an application send: neither side started the closing handshake, so the connection must end with a NON-graceful '
